@@ -31,6 +31,13 @@ class PolyglotBook
 
     bool contains(uint64_t key) const;
 
+    /**
+     * @brief Checks whether the random policy has anything to play for key:
+     * the key is in the book and at least one of its records has a positive
+     * weight (moves of weight zero are never played).
+     */
+    bool can_sample(uint64_t key) const;
+
     Move get_random_move(uint64_t key, const Position& position) const;
     Move get_best_move(uint64_t key, const Position& position) const;
 
